@@ -7,8 +7,13 @@ from harness.common import bud
 from harness.sessions import SB
 
 PROP = "C13"
-MODULES = ["CassisModel.Properties.C13", "CassisModel.Properties.C13Self", "CassisModel.Properties.C13Perm"]
+MODULES = ["CassisModel.Properties.C13", "CassisModel.Properties.C13Self", "CassisModel.Properties.C13Perm", "CassisModel.Properties.C13FeatInv", "CassisModel.Properties.C13PermSub"]
 THEOREMS = [
+    "Cassis.TS.merge_featInv",
+    "Cassis.TS.merge_effective_features",
+    "Cassis.TS.reparent_featInv",
+    "Cassis.TS.merge_perm_subtree_compete",
+    "Cassis.TS.merge_perm_subtree_compete_inputs",
     "Cassis.TS.merge_perm_one_super",
     "Cassis.TS.merge_perm_leaf_compete",
     "Cassis.TS.merge_grouping",
@@ -26,7 +31,7 @@ THEOREMS = [
     "Cassis.TS.merge_empty_same",
 ]
 ASSUMPTIONS = [
-    "order independence is proved for declaration lists without competing supertypes (merge_perm_one_super) and with competing supertypes on names that have no declared subtypes (merge_perm_leaf_compete); grouping independence holds by construction of the model (merge works on the concatenated declarations; merge_grouping); the remaining case (re-parenting of a whole subtree) is checked by exhaustive enumeration of all permutations and groupings over small pools and by random large pools (partial)",
+    "order independence is proved whenever no competing supertype of a name, nor any declared ancestor of one, has competing supertypes itself (StableCompete: merge_perm_subtree_compete, which subsumes merge_perm_one_super and merge_perm_leaf_compete) - the property's own side condition; grouping independence holds by construction of the model (merge works on the concatenated declarations; merge_grouping); every merge result satisfies the C10/C11 invariants (merge_featInv); outside StableCompete lies finding M6",
     "the registry order of the merged type system is not part of the model's contract (re-parented subtrees are moved to the end of the list); merged type systems are compared as name-keyed maps",
     "purity (inputs unmodified, no input object reachable from the result) is observed on the implementation: inputs are dumped before and after, and an object-identity walk is run on the result; in the functional model it holds by construction",
     "declarations of one feature that differ only in description or multiple-references flag are outside the claim",
@@ -283,7 +288,17 @@ def check_group(out, ops, meta, io, mo):
     elif not any(n_ in declared_supers for n_ in competing):
         out.count("order-theorem:merge_perm_leaf_compete")
     else:
-        out.count("order-theorem:none (a re-parented type has declared subtypes)")
+        # StableCompete: no competing supertype of a name, and no declared ancestor of one, has competing supertypes itself
+        def anc_or_self(x, seen=None):
+            seen = seen if seen is not None else set()
+            if x in seen:
+                return seen
+            seen.add(x)
+            for s2 in sups.get(x, ()):
+                anc_or_self(s2, seen)
+            return seen
+        stable = all(a not in competing for n_ in competing for s_ in sups[n_] for a in anc_or_self(s_))
+        out.count("order-theorem:merge_perm_subtree_compete" if stable else "order-theorem:none (a competing supertype or one of its ancestors has competing supertypes itself: region of M6)")
     # 1. success/failure independent of the order (when the clause applies) and as specified
     if spec[0] != "unspecified":
         want = "ok" if spec[0] == "ok" else "ValueError"
@@ -453,7 +468,7 @@ def run(ctx, out, budget):
     pool2 = ["p.T0", "p.T1", "p.T2", "Annotation", "TOP", "q.Annotation"]
     big2 = [[random_tsd(rng, pool2, 2) for _ in range(rng.randint(2, 3))] for _ in range(bud(budget, 60, 1500))]
     run_groups(ctx, out, big2, "shortnames", exhaustive_perms=False)
-    out.partial = ["order independence when a name with competing supertypes has declared subtypes: exhaustive small-pool correspondence only, no theorem"]
+    out.partial = ["purity (no object shared with the inputs) and descriptions of merged types: implementation-side observation only"]
 
 
 M6_WITNESS = [
